@@ -5,7 +5,7 @@ import "verif/sa/core"
 // Props lists, per claimed property, the rules that decide its structural clauses.
 func Props() []core.PropSpec {
 	return []core.PropSpec{
-		{ID: "C05", Rules: []string{"B1", "K4"},
+		{ID: "C05", Rules: []string{"B1", "B2", "K4"},
 			Explanation: "Go/generator side only: every input load the JIT decoder templates perform through (IP)(IC) is covered by a bound check established since IC last moved; optdec parses a private copy followed by at least 64 padding bytes. Reads performed inside the native routines (SIMD loads, tails, page-boundary logic) are NOT decided: they exist in the build only as byte arrays.",
 			Assumptions: []string{"a handler's first access may rely on IC < IL established by the preceding lspace opcode", "native routines are not analysed"}},
 		{ID: "C01", Rules: []string{"I0", "I1", "I2", "I3", "S1"},
